@@ -433,6 +433,10 @@ pub(crate) struct Socket {
     address_lookup: address_lookup::AddressLookupServices,
     /// Optional user-defined discover data.
     address_lookup_user_data: RwLock<Option<UserData>>,
+    /// Serializes [`Socket::publish_my_addr`]: the snapshot of our addresses and its
+    /// publication must not interleave with another caller's, or an older snapshot could be
+    /// published last.
+    publish_lock: std::sync::Mutex<()>,
     /// Explicitly configured external addresses to advertise.
     configured_addrs: RwLock<BTreeSet<SocketAddr>>,
 
@@ -734,6 +738,7 @@ impl Socket {
     ///
     /// Called whenever our addresses or home relay endpoint changes.
     fn publish_my_addr(&self) {
+        let _publishing = self.publish_lock.lock().expect("lock poisened");
         let relay_url = self.my_relay();
         let mut addrs: Vec<_> = self
             .direct_addrs
@@ -1109,6 +1114,7 @@ impl EndpointInner {
             address_lookup,
             relay_map: relay_map.clone(),
             address_lookup_user_data: RwLock::new(address_lookup_user_data),
+            publish_lock: Default::default(),
             configured_addrs: RwLock::new(configured_addrs),
             direct_addrs,
             net_report: Watchable::new((None, UpdateReason::None)),
